@@ -12,28 +12,22 @@ Theorem C04_encoder_kwargs_reach_encoder : forall he hk config call,
 Proof. exact kwargs_plain_path. Qed.
 Print Assumptions C04_encoder_kwargs_reach_encoder.
 
-(* full strength (also with `dialect=`): refuted - to_jsonb(dialect=X) drops orjson_options
-   (known finding C04/orjson-options-ignored-with-call-dialect) *)
-Definition C04_encoder_kwargs_with_dialect_full : Prop := kwargs_dialect_path_full.
-Theorem C04_encoder_kwargs_with_dialect_refuted : ~ C04_encoder_kwargs_with_dialect_full.
-Proof. exact kwargs_dialect_path_refuted. Qed.
-Print Assumptions C04_encoder_kwargs_with_dialect_refuted.
-
-Theorem C04_encoder_kwargs_with_dialect_partial : forall he hk config call,
-  he && hk = false -> kw_used ret_dialect he hk config call = kw_expected he hk config call.
-Proof. exact kwargs_dialect_path_partial. Qed.
-Print Assumptions C04_encoder_kwargs_with_dialect_partial.
+(* the same with `dialect=` (full strength; refuted before the /repo fix of the with-dialect lines) *)
+Theorem C04_encoder_kwargs_with_dialect : forall he hk config call,
+  kw_used ret_dialect he hk config call = kw_expected he hk config call.
+Proof. exact kwargs_dialect_path. Qed.
+Print Assumptions C04_encoder_kwargs_with_dialect.
 
 (* the documents: only orjson has encoder keywords; for every other format both paths write ser_F(tree);
-   to_jsonb without dialect writes orjson.dumps(tree, option = argument or Config value) *)
+   to_jsonb - with or without dialect - writes orjson.dumps(tree, option = argument or Config value) *)
 Theorem C04_method_document_keyword :
   forall (doc: Type) (ser_kw: fmt -> option Z -> bv -> doc) config call b,
     (forall dialect_given F, F <> FOrjson -> method_doc doc ser_kw dialect_given F config call b = ser_kw F None b) /\
-    method_doc doc ser_kw false FOrjson config call b = ser_kw FOrjson (Some (param_value config call)) b.
+    (forall dialect_given, method_doc doc ser_kw dialect_given FOrjson config call b = ser_kw FOrjson (Some (param_value config call)) b).
 Proof.
   intros. split.
   - intros dg F HF. apply method_doc_no_kwargs. exact HF.
-  - apply method_doc_orjson_plain.
+  - intro dg. apply method_doc_orjson.
 Qed.
 Print Assumptions C04_method_document_keyword.
 
@@ -41,6 +35,6 @@ Print Assumptions C04_method_document_keyword.
 Example C04_kwargs_nonvacuous :
   kw_used ret_plain true true 2%Z None = Some 2%Z /\ kw_used ret_plain true true 2%Z (Some 5%Z) = Some 5%Z /\
   kw_used ret_plain true false 2%Z (Some 5%Z) = None /\
-  kw_used ret_dialect true true 2%Z (Some 5%Z) = None /\         (* the defect *)
+  kw_used ret_dialect true true 2%Z (Some 5%Z) = Some 5%Z /\     (* was None before the fix *)
   has_kwargs FOrjson = true /\ has_encoder FMsgpack = true /\ has_encoder FJson = false.
 Proof. repeat split; vm_compute; reflexivity. Qed.
